@@ -69,7 +69,7 @@ def build_object(d, frame, unix_time=100):
         (0.0, 0.0, 0.0), d["conf"], lab, pointcloud_num=d.get("pts"), uuid=d.get("uuid"))
 
 
-def build_transforms(tf):
+def build_transforms(tf, warmed=True):
     """tf: None | {"pos":[x,y,z], "quat":[w,x,y,z]} (ego pose: BASE_LINK -> MAP) | {"empty": True}."""
     from perception_eval.common.schema import FrameID
     from perception_eval.common.transform import HomogeneousMatrix, TransformDict
@@ -78,7 +78,17 @@ def build_transforms(tf):
         return None
     if tf.get("empty"):
         return TransformDict()
-    return TransformDict(HomogeneousMatrix(tuple(tf["pos"]), tuple(tf["quat"]), src=FrameID.BASE_LINK, dst=FrameID.MAP))
+    real = HomogeneousMatrix(tuple(tf["pos"]), tuple(tf["quat"]), src=FrameID.BASE_LINK, dst=FrameID.MAP)
+    if warmed and (int(abs(tf["pos"][0]) * 8) + int(abs(tf["pos"][1]) * 8)) % 2 == 1:
+        # a registry that has ALREADY served another ego pose (both directions queried) and is then updated in place, as
+        # interpolate_ground_truth_frames does with the deep-copied frame's transforms: only the current entry may count
+        other = HomogeneousMatrix((tf["pos"][0] + 7.5, tf["pos"][1] - 3.25, tf["pos"][2]), (0.6, 0.0, 0.0, 0.8), src=FrameID.BASE_LINK, dst=FrameID.MAP)
+        reg = TransformDict(other)
+        reg.transform((FrameID.MAP, FrameID.BASE_LINK), (1.0, 2.0, 3.0))
+        reg.transform((FrameID.BASE_LINK, FrameID.MAP), (1.0, 2.0, 3.0))
+        reg[(FrameID.BASE_LINK, FrameID.MAP)] = real
+        return reg
+    return TransformDict(real)
 
 
 def build_cfg_kwargs(cfg):
@@ -408,7 +418,7 @@ class FilterObjectsCorr(Corr):
 
         transforms = build_transforms(case["tf"])
         objs = [build_object(d, case["frame"]) for d in case["objs"]]
-        facts = [object_facts(o, transforms) for o in objs]
+        facts = [object_facts(o, build_transforms(case["tf"], warmed=False)) for o in objs]     # facts from a FRESH registry
         kw = build_cfg_kwargs(case["cfg"])
         kw_before = repr(kw)
         before = fingerprint(objs)
@@ -580,7 +590,8 @@ class FilterResultsCorr(Corr):
         before = fingerprint(ests + gts)
         pairs_before = [(id(r.estimated_object), id(r.ground_truth_object)) for r in results]
         index = {id(r): i for i, r in enumerate(results)}
-        obs = {"est_facts": [object_facts(o, transforms) for o in ests], "gt_facts": [object_facts(o, transforms) for o in gts]}
+        fresh = build_transforms(case["tf"], warmed=False)
+        obs = {"est_facts": [object_facts(o, fresh) for o in ests], "gt_facts": [object_facts(o, fresh) for o in gts]}
         try:
             kept = filter_object_results(results, transforms=transforms, **kw)
         except (TypeError, IndexError) as e:
